@@ -908,6 +908,47 @@ fn apply_inner<P: PT, C: Coll<P>>(c: &mut C, ev: &Value, ctx: &Ctx) -> Option<Ou
             let kind = ev["kind"].as_str().unwrap();
             guarded(|| c.find_from(ctx, &p(), &q, kind))
         }
+        "SplitOp" => {
+            let Some(map) = c.as_map() else { return None };
+            let op = ev["op"].as_str().unwrap().to_string();
+            guarded(|| {
+                let vl = |v: &i32| *v;
+                // read-only: the two sides of the view
+                let ro = match (&*map).view_at(p()) {
+                    Some(v) => match (v.left(), v.right()) {
+                        (Some(l), Some(r)) => json!([crate::pairs::ro_op(ctx, &op, &l, &r, &vl, &vl)]),
+                        _ => json!([]),
+                    },
+                    None => json!([]),
+                };
+                // mutable twin on the two halves of a split
+                let rw = match map.view_mut_at(p()) {
+                    Some(v) => match v.split() {
+                        (Some(mut l), Some(r)) => {
+                            let m = crate::pairs::mut_op(ctx, &format!("{op}Mut"), &mut l, r, &vl, &vl);
+                            json!([m])
+                        }
+                        _ => json!([]),
+                    },
+                    None => json!([]),
+                };
+                // the _mut twins yield the same prefixes with the same presence pattern
+                let same = match (ro.get(0), rw.get(0)) {
+                    (Some(a), Some(b)) => {
+                        let ka: Vec<&Value> = a.as_array().unwrap().iter().map(|x| &x["p"]).collect();
+                        let kb: Vec<&Value> = b.as_array().unwrap().iter().map(|x| &x["p"]).collect();
+                        ka == kb
+                    }
+                    (None, None) => true,
+                    _ => false,
+                };
+                if same {
+                    ro
+                } else {
+                    json!(["MUT-DIFFERS", ro, rw])
+                }
+            })
+        }
         "Alias" => {
             let Some(map) = c.as_map() else { return None };
             let how = ev["how"].as_str().unwrap_or("iter");
